@@ -325,6 +325,21 @@ pub fn cmd_live(args: &HashMap<String, String>) -> i32 {
         let dir = fresh_dir(&root, &format!("live{r}"));
         let always = (seed as usize + r) % 2 == 0;
         let db = Arc::new(Db::open_or_create(&opts(&dir, always)).unwrap());
+        // records written to the log / applied to the tables (hook events)
+        let logged: Arc<Mutex<std::collections::BTreeSet<u64>>> = Arc::new(Mutex::new(Default::default()));
+        let enacted: Arc<Mutex<std::collections::BTreeSet<u64>>> = Arc::new(Mutex::new(Default::default()));
+        {
+            let (l2, e2) = (logged.clone(), enacted.clone());
+            parity_db::verif::set_sink(Some(Arc::new(move |n: &'static str, a: &[u64]| match n {
+                "EndRecord" => {
+                    l2.lock().unwrap().insert(a[0]);
+                },
+                "EnactEnd" => {
+                    e2.lock().unwrap().insert(a[0]);
+                },
+                _ => {},
+            })));
+        }
         let nthreads = 1 + (seed as usize + r) % 3;
         let per = 300 + 200 * (r % 3);
         let bigtx = r % 2 == 1;
@@ -355,6 +370,28 @@ pub fn cmd_live(args: &HashMap<String, String>) -> i32 {
             break
         }
         total_commits += counter.load(Ordering::SeqCst);
+        // no further client activity: with a rotation after every record (always_flush) every logged record
+        // must reach the tables on its own
+        if always {
+            let start = Instant::now();
+            loop {
+                let missing: Vec<u64> = {
+                    let (l, e) = (logged.lock().unwrap(), enacted.lock().unwrap());
+                    l.iter().filter(|x| !e.contains(x)).copied().collect()
+                };
+                let queued = db.verif_pipeline_sizes().0;
+                if missing.is_empty() && queued == 0 {
+                    break
+                }
+                if start.elapsed() > Duration::from_secs(watchdog.min(20)) {
+                    problems.push(format!("round {r}: {} logged records (first {:?}) were not applied to the tables within {} s without further client activity ({} commits still queued)",
+                                          missing.len(), missing.first(), watchdog.min(20), queued));
+                    break
+                }
+                std::thread::sleep(Duration::from_millis(10));
+            }
+        }
+        parity_db::verif::set_sink(None);
         // drop immediately after the last commit
         let db = match Arc::try_unwrap(db) {
             Ok(d) => d,
